@@ -145,7 +145,7 @@ PROPS["C08"] = dict(
 STORE_TRUST = ["overlay shims (build tag verif): harness/shims/storage/memory (dump under the shard locks, collectGarbage, populateProm), harness/shims/storage/redis, harness/shims/pkg/timecache (pinned clock)",
                "Redis is miniredis (in-process); Redis command semantics (HSET/HDEL replies, MULTI/EXEC atomicity, empty hashes vanish) are modelled from the Redis documentation, not verified",
                "Go map iteration order / HKEYS order = order of the association list; theorems quantify over all orders",
-               "Redis store: executable model tied by the same streams; the refinement/invariant theorems are proved for the memory store, the Redis model's theorems are in Props/C01R.lean"]
+               "Redis store: executable model tied by the same streams; Redis commands are modelled sequentially per operation (its own refinement and invariant theorems are in Props/Redis.lean)"]
 
 STORE_RULE = ("cases: operation sequences (put seeder/leecher, graduate, delete, announce-peers, scrape, expiry with cutoffs at mtime-1/mtime/mtime+1 and far, clock "
               "moves) over small universes (2-4 infohashes chosen to collide / not collide in shard index for n in {1,2,3,1024}; 3-17 peers incl. equal IDs on two "
@@ -154,22 +154,22 @@ STORE_RULE = ("cases: operation sequences (put seeder/leecher, graduate, delete,
               "validSelection; non-trivial = joins, role changes, last-member departures, expiries, capped/self-excluding selections (model tags), distinct op lines")
 
 PROPS["C01"] = dict(
-    lean_targets=["Chihaya.Props.C01"],
-    props_files=["Chihaya/Props/C01.lean"],
+    lean_targets=["Chihaya.Props.C01", "Chihaya.Props.Redis"],
+    props_files=["Chihaya/Props/C01.lean", "Chihaya/Props/Redis.lean"],
     streams=[dict(name="C01", quick=18000, thorough=600000), dict(name="C01T", quick=4000, thorough=150000)],
     rule=STORE_RULE + "; plus announce/scrape histories through the real Logic and both real frontends (stream C01T) where the counts of every announce "
          "response are judged against the swarm's counts before and after (reading R2)",
     trusted=STORE_TRUST, assumptions=["no storage failures (Redis errors are not injected)"],
 )
 PROPS["C02"] = dict(
-    lean_targets=["Chihaya.Props.C02"],
-    props_files=["Chihaya/Props/C02.lean"],
+    lean_targets=["Chihaya.Props.C02", "Chihaya.Props.Redis"],
+    props_files=["Chihaya/Props/C02.lean", "Chihaya/Props/Redis.lean"],
     streams=[dict(name="C02", quick=24000, thorough=800000)],
     rule=STORE_RULE + "; numwant in {0..8, 50, 2^31, random}, swarms up to 17 peers", trusted=STORE_TRUST, assumptions=[],
 )
 PROPS["C03"] = dict(
-    lean_targets=["Chihaya.Props.C03"],
-    props_files=["Chihaya/Props/C03.lean"],
+    lean_targets=["Chihaya.Props.C03", "Chihaya.Props.Redis"],
+    props_files=["Chihaya/Props/C03.lean", "Chihaya/Props/Redis.lean"],
     streams=[dict(name="C03", quick=12000, thorough=400000), dict(name="C08", quick=2000, thorough=50000), dict(name="C09", quick=2000, thorough=50000),
              dict(name="C03T", quick=4000, thorough=150000)],
     rule=STORE_RULE + "; plus the HTTP and UDP writer streams (peer entry widths per family); plus C03T: whole-tracker sequences over both frontends on shared infohashes with IPv4, IPv6 and "
@@ -177,14 +177,14 @@ PROPS["C03"] = dict(
          "alone (spoofing off): a response to an IPv4 (or IPv4-mapped) source lists no IPv6 peer and vice versa", trusted=STORE_TRUST, assumptions=[],
 )
 PROPS["C05"] = dict(
-    lean_targets=["Chihaya.Props.C05"],
-    props_files=["Chihaya/Props/C05.lean"],
+    lean_targets=["Chihaya.Props.C05", "Chihaya.Props.Redis"],
+    props_files=["Chihaya/Props/C05.lean", "Chihaya/Props/Redis.lean"],
     streams=[dict(name="C05", quick=18000, thorough=600000)],
     rule=STORE_RULE, trusted=STORE_TRUST, assumptions=["mtime is the cached clock (pinned by the harness); boundary mtime = cutoff follows the code (removed)"],
 )
 PROPS["C17"] = dict(
-    lean_targets=["Chihaya.Props.C17"],
-    props_files=["Chihaya/Props/C17.lean"],
+    lean_targets=["Chihaya.Props.C17", "Chihaya.Props.Redis"],
+    props_files=["Chihaya/Props/C17.lean", "Chihaya/Props/Redis.lean"],
     streams=[dict(name="C17", quick=18000, thorough=600000), dict(name="C04", quick=4000, thorough=100000)],
     rule=STORE_RULE + "; the exported gauges are read after every mutating step; plus the concurrent stream of C04 (contended same-peer micro-rounds, totals read after each group)", trusted=STORE_TRUST, assumptions=["no storage failures"],
 )
@@ -442,7 +442,25 @@ def judge_udp_layout(a, impl):
     return None
 
 
-JUDGES = {"vi.handle": judge_vi_handle, "trk.http_announce": judge_trk, "trk.udp": judge_trk, "trk.http_scrape": judge_trk}
+def judge_wedge(a, impl):
+    pend = a.get("pending", "-")
+    try:
+        pend = bytes.fromhex(pend).decode("utf-8", "replace") if pend not in ("-", "") else "-"
+    except ValueError:
+        pass
+    return "request handling did not terminate: the implementation produced no observation for the watchdog period while executing: " + pend[:300]
+
+
+def judge_vi_check(a, impl):
+    """C20/C18 on the implementation alone: the hook is built iff 0 < p <= 1 and delta > 0"""
+    pn, pd, delta = int(a["pn"]), int(a["pd"]), int(a["delta"])
+    want = "ok" if (0 < pn <= pd and delta > 0) else "refused"
+    if impl != want:
+        return f"hook options p={pn}/{pd} max_increase_delta={delta}: start-up answered '{impl}', the documented ranges demand '{want}'"
+    return None
+
+
+JUDGES = {"wedge.detected": judge_wedge, "vi.check": judge_vi_check, "vi.handle": judge_vi_handle, "trk.http_announce": judge_trk, "trk.udp": judge_trk, "trk.http_scrape": judge_trk}
 
 
 def matches(finding, failing):
@@ -460,7 +478,8 @@ def matches(finding, failing):
 
 RACETESTS = {
     "C15": [("middleware/jwt", "TestRefreshRace")],
-    "C04": [("storage/memory", "TestVerifStoreRace")],
+    "C04": [("storage/memory", "TestVerifStoreRace"), ("frontend/udp", "TestVerifUDPRace"), ("frontend/http", "TestVerifHTTPWriteRace")],
+    "C08": [("frontend/http", "TestVerifHTTPWriteRace")],
 }
 
 
